@@ -296,6 +296,8 @@ LEVEL_TEXT = ("Machine-checked (Coq) theorems over an executable model of allocM
               "against the real entry points over recording allocator seams under ASan/UBSan, in the builds with and without guard bytes.")
 LEVEL_NOTE = ("Partial: the model is bounds-checked, so the logic of memory safety is proved; actual heap accesses are seen only by ASan in the runs. "
               "Trusted: Coq kernel, extraction, harness (seams, region bookkeeping), generators, LP64. Modelled not verified: the C++ itself; libc "
-              "malloc/realloc behind the seam; the default allocators' FAIL-on-NULL path (checkedMalloc) is not exercised.")
+              "malloc/realloc behind the seam (the byte copy of a realloc is libc's, the model states its contract); the default allocators' "
+              "FAIL-on-NULL path (checkedMalloc) is not exercised; disjointness of different blocks is proved relative to the oracle handing out "
+              "non-overlapping regions (C05_live_disjoint), the runs see it only through ASan.")
 TECHNIQUE = "Coq proof over hand-written executable model + extracted-model/implementation correspondence check (differential, boundary sweep + fault enumeration)"
 READY = True
